@@ -85,6 +85,22 @@ DIRECTED_LOOPS = [
     ("failed-in-native-callback", "try { prev = [1, 2, 3].iter().map(|v| v + nil).collect(); } catch e { prev = e; }"),
     ("vector-window", "if prev == nil { prev = []; } prev.push([i]); if prev.len() > 4 { prev = prev[1..5]; }"),
 ]
+# classes created on every pass (a base and a derived one) put through every built-in operation that looks at a class - a table keyed
+# by classes, or a remembered answer, must not keep them
+_LOCAL = "#[constructor(new)] class L { fn m(self) { return 1; } #[static] fn s() { return Self; } } #[derive(L), constructor(new)] class M2 { fn n(self) { return super.m(); } } var o = M2.new(); "
+DIRECTED_LOOPS += [
+    ("local-classes-derives", _LOCAL + "o.derives(L); o.derives(IndexError); o.derives(Object); L.new().derives(M2); 1.derives(L); prev = nil;"),
+    ("local-classes-through-adapters", _LOCAL + "prev = [o, L.new()].iter().map(|v| v).filter(|v| true).collect().len();"),
+    ("local-classes-type-and-equality", _LOCAL + "var t = type(o) == M2; t = type(o) == L; t = o == o; t = M2 == L; t = type(M2) == type(L); prev = t;"),
+    ("local-classes-as-map-keys", _LOCAL + "var mk = {M2: 1, L: 2}; mk.get(M2); mk.has_key(type(o)); mk.remove(L); prev = mk.len();"),
+    ("local-classes-display", _LOCAL + "var t = String.from(o) + String.from(M2) + \"${L}\"; prev = t.len();"),
+    ("local-classes-bound-and-static", _LOCAL + "var b = o.m; b(); var b2 = M2.new; b2(); var b3 = o.n; b3(); L.s(); o.s(); prev = nil;"),
+    ("local-classes-thrown", _LOCAL + "try { throw o; } catch e { e.derives(L); e.derives(TypeError); prev = nil; } try { o.nosuch; } catch e { e.derives(M2); }"),
+    ("local-classes-in-fibers", _LOCAL + "var f = Fiber.new(|| M2.new().n()); f.call(); var f2 = Fiber.new(|| { Fiber.yield(L.new()); }); f2.call(); prev = nil;"),
+    ("local-classes-as-iterables", "#[constructor(new)] class It { fn iter(self) { return self; } fn next(self) { if self.k > 1 { return StopIter.new(); } self.k = self.k + 1; return self.k; } } "
+                                   "var it = It.new(); it.k = 0; for x in it { prev = x; } var it2 = It.new(); it2.k = 0; prev = it2.iter().next();"),
+    ("local-error-subclass", "#[derive(Error), constructor(new)] class MyErr { } try { throw MyErr.new(); } catch e { e.derives(Error); e.derives(MyErr); e.derives(ValueError); prev = nil; }"),
+]
 
 
 # pairs of programs that end with the SAME data reachable by the program (same objects of every kind), reached through different
@@ -121,6 +137,47 @@ TWINS = [
      "var keep = nil;\nfor i in 0..5 { var v = [i]; var c = || v; if i == 4 { keep = c; } }\nprint(keep());\n",
      "var keep = nil;\n{ var v = [4]; keep = || v; }\nprint(keep());\n"),
 ]
+
+
+# Combinatorial loop bodies: `prev = step(prev)` where `step` parks its argument in a piece of GARBAGE of kind G and returns a fresh
+# SURVIVOR of kind S that does not refer to the argument, executed in context C (on the main fiber, on a fiber that runs to completion, on a
+# fiber that is suspended holding the argument on its stack and then dropped, on a fiber nested in another).  By construction the program
+# can reach one survivor at any time, so twice as many iterations must leave the same census.
+COMBO_G = [
+    ("vec", "var g = [p, [p]];"), ("tuple", "var g = (p, (p,));"), ("map-value", "var g = {1: p, \"k\": [p]};"),
+    ("field", "#[constructor(new)] class GK { } var g = GK.new(); g.f = p;"), ("capture", "var g = || p; var g2 = || g;"),
+    ("iterator", "var g = [p, p].iter().map(|v| [v]);"), ("bound-native", "var g = [p].len;"),
+    ("exception", "var g = nil; try { throw [p]; } catch e { g = e; }"),
+    ("suspended-fiber-stack", "var g = Fiber.new(|| { var loc = [p]; Fiber.yield(1); return loc; }); g.call();"),
+]
+COMBO_S = [
+    ("closure-over-closed-inner-variable", "var c = nil; { var x = [1]; c = || x; } return c;"),
+    ("closure-over-parameter", "fn mk(v) { return || v; } return mk([2]);"),
+    ("instance-of-local-class", "#[constructor(new)] class SK { fn m(self) { return 1; } } var s = SK.new(); s.v = [3]; return s;"),
+    ("bound-method", "#[constructor(new)] class SK2 { fn m(self) { return 1; } } return SK2.new().m;"),
+    ("iterator", "return [4, 5].iter();"), ("map", "return {\"k\": [6]};"), ("new-fiber", "return Fiber.new(|| 7);"),
+    ("suspended-fiber", "var sf = Fiber.new(|| { var l = [8]; Fiber.yield(l); return l; }); sf.call(); return sf;"),
+    ("tuple", "return (9, [9]);"), ("local-function", "fn lf() { return 10; } return lf;"),
+]
+COMBO_C = [
+    ("main", "prev = step(prev);"),
+    ("fiber-finished", "prev = Fiber.new(|p| step(p)).call(prev);"),
+    ("fiber-suspended-dropped", "var fb = Fiber.new(|p| { var s = step(p); var hold = [p]; Fiber.yield(s); return hold; }); prev = fb.call(prev);"),
+    ("fiber-nested", "prev = Fiber.new(|p| Fiber.new(|q| step(q)).call(p)).call(prev);"),
+]
+
+
+def combo_loops():
+    out = []
+    for gn, g in COMBO_G:
+        for sn, sv in COMBO_S:
+            for cn, c in COMBO_C:
+                out.append(("combo:%s/%s/%s" % (gn, sn, cn), "fn step(p) { %s %s }" % (g, sv), c))
+    return out
+
+
+def combo_loop(defs, body, iters):
+    return "%s\nvar prev = nil;\nvar i = 0;\nwhile i < %d {\n    %s\n    i = i + 1;\n}\nprint(\"done\");\n" % (defs, iters, body)
 
 
 def directed_loop(body, iters):
@@ -228,6 +285,11 @@ def correspondence(ctx, model_ok=True):
         srcs.append((a, b))
         for tag, s in (("n", a), ("2n", b)):
             cen_cases.append(vlib.case_line("dir-%s-%s" % (name, tag), ["S:" + vlib.hx(s), "G"], gc="default", steps=400000000))
+    for name, defs, body in combo_loops():
+        a, b = combo_loop(defs, body, 12), combo_loop(defs, body, 24)
+        srcs.append((a, b))
+        for tag, s in (("n", a), ("2n", b)):
+            cen_cases.append(vlib.case_line("%s-%s" % (name.replace("/", "_").replace(":", "-"), tag), ["S:" + vlib.hx(s), "G"], gc="default", steps=400000000))
     real = vlib.run_real(runner, cen_cases)
     cen_checked = 0
     recounts = 0
